@@ -3,5 +3,5 @@
 set -u
 P=$1; ID=$2; T=${3:-quick}
 cd /repo && git apply "$P" || { echo "patch does not apply"; exit 3; }
-(cd /verif && timeout 1500 ./check $ID --tier $T > /tmp/trymut_$ID.log 2>&1; echo "exit=$?"; grep -E "^(VIOLATION|KNOWN|OK|MACHINERY)" -A2 /tmp/trymut_$ID.log | head -12)
+(cd /verif && VERIF_TARGET=/verif/target/mut timeout 1500 ./check $ID --tier $T > /tmp/trymut_$ID.log 2>&1; echo "exit=$?"; grep -E "^(VIOLATION|KNOWN|OK|MACHINERY)" -A2 /tmp/trymut_$ID.log | head -12)
 cd /repo && git checkout -- . && git status --short
